@@ -80,6 +80,6 @@ Definition parse_float (s : str) : option f64 :=
   end.
 
 Definition impl_parse_float (s : str) : outcome :=
-  match parse_float s with Some f => Ok (VSome (VFloat f)) | None => Ok VNil end.
+  match parse_float s with Some f => Ok (VFloat f) | None => Ok VNil end.
 Definition spec_parse_float (s : str) : sres :=
-  match parse_float s with Some f => SVal (VSome (VFloat f)) | None => SVal VNil end.
+  match parse_float s with Some f => SVal (VFloat f) | None => SVal VNil end.
